@@ -92,6 +92,15 @@ func c01Pool() []c01Val {
 	return out
 }
 
+// literal forms for the temporal-arithmetic sub-space
+var c01TemporalForms = []struct{ src, class string }{
+	{"@2020", "date.year"}, {"@2020-02", "date.month"}, {"@2020-02-29", "date.day"},
+	{"@2020T", "dt.year"}, {"@2020-02T", "dt.month"}, {"@2020-02-29T", "dt.day"}, {"@2020-02-29T10", "dt.hour"}, {"@2020-02-29T10:30", "dt.minute"}, {"@2020-02-29T10:30:15", "dt.second"}, {"@2020-02-29T10:30:15.250", "dt.ms"},
+	{"@2020-02-29T10Z", "dt.hour.tz"}, {"@2020-02-29T10:30+05:30", "dt.minute.tz"}, {"@2020-02-29T23:59:59-11:00", "dt.second.tz"}, {"@2020-02-29T10:30:15.250Z", "dt.ms.tz"},
+	{"@T10", "time.hour"}, {"@T10:30", "time.minute"}, {"@T23:59:59", "time.second"}, {"@T10:30:15.250", "time.ms"},
+	{"Patient.birthDate", "fhir.date"}, {"@0001-01-01", "date.min"}, {"@9999-12-31T23:59:59.999Z", "dt.max"},
+}
+
 var c01BinOps = []string{"+", "-", "*", "/", "div", "mod", "&", "=", "!=", "<", "<=", ">", ">=", "and", "or", "xor", "implies", "|", "in", "contains", "~", "!~"}
 
 // c01Call evaluates f and reports a panic (hangs are caught by the worker watchdog)
@@ -249,6 +258,20 @@ func init() {
 					}
 					r.NontrivialByConstruction(n)
 					r.Sample(core.W{"seed": seed})
+				}},
+				{Name: "temporal-arithmetic", N: len(c01TemporalForms), Note: "every Date/DateTime/Time literal form (each precision, with and without offset) and FHIR date element x {+,-} x every calendar keyword (singular, plural), UCUM spelling and two non-temporal units x 7 amounts, both operand orders", Run: func(i int, r *core.Rec) {
+					form := c01TemporalForms[i]
+					for _, u := range c09Units {
+						for _, am := range []string{"0", "1", "1000", "0.5", "1.5", "2147483647", "99999999999999999999"} {
+							for _, op := range []string{"+", "-"} {
+								q := am + " " + u.lit
+								c01Source(r, "temporal", form.class+"|"+u.class, form.src+" "+op+" "+q)
+								c01Source(r, "temporal", form.class+"|"+u.class, form.src+" "+op+" (-"+q+")")
+								c01Source(r, "temporal", form.class+"|"+u.class, q+" "+op+" "+form.src)
+								r.State("temporal|" + form.class + "|" + u.class + "|" + op)
+							}
+						}
+					}
 				}},
 				{Name: "operators", N: len(pool), Note: fmt.Sprintf("%d binary + 2 unary operators + indexer + is/as x all ordered pairs of the %d-value pool", len(c01BinOps), len(pool)), Run: func(i int, r *core.Rec) {
 					a := pool[i]
